@@ -163,6 +163,16 @@ func buildCorpus(format, size string) [][]byte {
 			fmt.Fprintf(&sb, ")root%d;\n", t)
 		}
 		out = []string{sb.String()}
+	case "fasta/longline":
+		out = []string{">a\nAC\n>" + string(longSeq(5000)) + "\n" + string(longSeq(5003)) + "\nACGT\n>b\nAC\n"}
+	case "fastq/longline":
+		out = []string{"@a\nAC\n+\nII\n@long\n" + string(longSeq(5001)) + "\n+\n" + strings.Repeat("IJ@+", 1251)[:5001] + "\n@b\nA\n+\nI\n"}
+	case "sam/longline", "samh/longline":
+		out = []string{"@HD\tVN:1.6\n" + fmt.Sprintf(samLine, "q0", 0, 1, 2, "IIII") + "\n" + "long\t0\tchr1\t5\t60\t*\t=\t9\t0\t" + string(longSeq(4990)) + "\t" + strings.Repeat("I\"J", 1664)[:4990] + "\tXZ:Z:" + string(longSeq(300)) + "\n" + fmt.Sprintf(samLine, "q2", 16, 7, 8, "JJJJ") + "\n"}
+	case "bed/longline":
+		out = []string{"a\t0\t1\tn\nchr2\t5\t6\t" + string(longSeq(5000)) + "\nb\t2\t3\tm\n"}
+	case "newick/longline":
+		out = []string{"(a,b);\n(" + string(longSeq(5000)) + ":1,'" + strings.Repeat("x y''", 1000) + "':2)r;\n(c,d);\n"}
 	default:
 		panic("no corpus " + format + "/" + size)
 	}
